@@ -1,5 +1,6 @@
 """Generic intraprocedural dataflow helpers: reaching definitions, origins, symbolic
 linear forms.  All work on the CFG of one function; nothing executes code."""
+import re
 from .frontend import walk, children, strip, strip_parens, qtype
 from .expr import canon, var_init, int_value, is_null
 
@@ -107,6 +108,7 @@ def _strong_out_def(rd, d, use_id):
 
 
 def register_identity_functions(prog):
+    _ADDR_HELPERS['prog'] = prog
     _register_identity_functions(prog)
     _register_out_fresh(prog)
 
@@ -597,4 +599,52 @@ def offset_split(e, rd=None, node_id=None, depth=0):
             if len(ds) == 1 and ds[0].kind in ('init', 'assign') and ds[0].rhs is not None \
                     and not _mentions(ds[0].rhs, r[1]) and _stable(rd, ds[0].node, node_id, ds[0].rhs):
                 return offset_split(ds[0].rhs, rd, ds[0].node, depth + 1)
+    if k == 'CallExpr' and _ADDR_HELPERS.get('prog') is not None and depth < 4:
+        # an address helper: a static function whose only statement returns base-of-a-parameter + offset-over-parameters
+        prog = _ADDR_HELPERS['prog']
+        nm = prog.callee_name(e)
+        g = None
+        if nm:
+            for cand in prog.funcs.values():
+                if cand.name == nm and cand.static and cand.body is not None:
+                    g = cand
+                    break
+        if g is not None:
+            stmts = [c for c in children(g.body)]
+            if len(stmts) == 1 and stmts[0].get('kind') == 'ReturnStmt' and children(stmts[0]):
+                b0, off0 = offset_split(children(stmts[0])[0])
+                pn = [p.get('name') for p in g.params]
+                args = children(e)[1:]
+                if len(args) == len(pn):
+                    amap = {p_: a for p_, a in zip(pn, args)}
+
+                    def ren(t):
+                        m = re.match(r'^([A-Za-z_]\w*)((?:->\w+)*)$', t)
+                        if m and m.group(1) in amap:
+                            return canon(amap[m.group(1)]) + m.group(2) if m.group(2) else None
+                        return t
+                    nb = ren(b0)
+                    if nb is not None:
+                        total = Poly()
+                        ok = True
+                        for mono, coef in off0.t.items():
+                            term = Poly.const(coef)
+                            for atom in mono:
+                                m = re.match(r'^([A-Za-z_]\w*)$', atom)
+                                if m and atom in amap:
+                                    term = term * poly_of(amap[atom], rd, node_id)
+                                else:
+                                    ra = ren(atom)
+                                    if ra is None:
+                                        ok = False
+                                        break
+                                    term = term * Poly.atom(ra)
+                            if not ok:
+                                break
+                            total = total + term
+                        if ok:
+                            return nb, total
     return canon(e), Poly()
+
+
+_ADDR_HELPERS = {}
